@@ -221,6 +221,13 @@ class AstToSqlVisitor(visitor.NodeVisitor):
             right = f"({right})"
 
         #  'eq/ne null' should become 'IS (NOT) NULL' instead of '(!)= NULL'
+        if isinstance(node.left, ast.Null) and isinstance(
+            node.comparator, (ast.Eq, ast.NotEq)
+        ):
+            # 'null eq x' means the same as 'x eq null':
+            left, right = right, left
+            node = ast.Compare(node.comparator, node.right, node.left)
+
         if isinstance(node.right, ast.Null):
             if isinstance(node.comparator, ast.Eq):
                 comparator = "IS"
